@@ -143,7 +143,9 @@ static void check_storage(int v, const char *when)
     if (cstl_vector_capacity(x) > 0 || cstl_vector_size(x) > 0) {
         shim_blk *b = shim_find(cstl_vector_data(x));
         unsigned __int128 need = ((unsigned __int128)cstl_vector_capacity(x) + 1) * M[v].es;
-        MC_CHECK(PC09, b != NULL && b->p == cstl_vector_data(x), "%s: vector %d (size %zu, capacity %zu) data pointer is not the start of a live allocation", when, v, cstl_vector_size(x), cstl_vector_capacity(x));
+        MC_CHECK(PC09, b != NULL, "%s: vector %d (size %zu, capacity %zu) data pointer is not inside a live allocation", when, v, cstl_vector_size(x), cstl_vector_capacity(x));
+        /* where in its block the element storage starts is the library's business (the scratch element may sit in front of it); the elements 0..capacity-1 must lie inside */
+        if (b) MC_CHECK(PC09, (unsigned __int128)((const char *)cstl_vector_data(x) - (const char *)b->p) + (unsigned __int128)cstl_vector_capacity(x) * M[v].es <= b->sz, "%s: vector %d: capacity %zu reaches past the end of its allocation", when, v, cstl_vector_capacity(x));
         if (b) MC_CHECK(PC09, (unsigned __int128)b->sz >= need, "%s: vector %d reports capacity %zu but its allocation has %zu bytes (needs (capacity+1)*%zu)", when, v, cstl_vector_capacity(x), b->sz, M[v].es);
         if (mc_branch_dead) return;
         for (i = 0; i < M[v].size; i++)
